@@ -35,6 +35,11 @@ def shl_parts(t):
         root, names = field_path(src)
         if root == ('param', 1) and len(names) == 1 and k is not None:
             return [(names[0], k)]
+        return None
+    # an unshifted channel is shifted by 0; `a + b` of disjoint bit ranges is not accepted (it is not `|` in general)
+    root, names = field_path(t)
+    if root == ('param', 1) and len(names) == 1 and t[0] in ('field', 'deref'):
+        return [(names[0], 0)]
     return None
 
 
@@ -194,6 +199,8 @@ def r19_2(ctx):
             p = strip_all(p)
             okp = is_call(p, 'as_mut_ptr' if mutable else 'as_ptr') and is_call(strip_all(p[2][0]), 'AsMut::as_mut' if mutable else 'AsRef::as_ref') and is_self_field(strip_all(p[2][0])[2][0], 'buf')
             n = strip_casts(n)
+            if n[0] == 'bin' and n[1] == 'Mul' and is_call(n[2], 'size_of') and not is_call(n[3], 'size_of'):
+                n = ('bin', 'Mul', n[3], n[2])      # multiplication commutes
             okn = (n[0] == 'bin' and n[1] == 'Mul' and is_call(strip_all(n[2]), '::len') and is_call(strip_all(strip_all(n[2])[2][0]), 'as_mut', 'as_ref')
                    and is_self_field(strip_all(strip_all(n[2])[2][0])[2][0], 'buf') and is_call(n[3], 'size_of') and n[3][1].endswith('size_of'))
             if okn:
@@ -232,7 +239,17 @@ def r19_3(ctx):
             n = poly(rs[0][2][1])
             okr = n == Poly.leaf(('param', 1)) * Poly.leaf(('param', 2)) and const_val(rs[0][2][2]) == 0
         # nothing else touches vec
-        others = [ct for bi, d, ct in calls_in(ctx, b) if any(strip_all(a) == ('mem', 3) for a in ct[2]) and not (d and d.endswith('::resize'))]
+        # nothing else *mutates* vec (read-only uses through a shared reference — len(), is_empty(), capacity() — are harmless)
+        others = []
+        for bi, d, ct in calls_in(ctx, b):
+            if d and d.endswith('::resize'):
+                continue
+            tys = b.blocks[bi]['t'].get('arg_tys') or []
+            for k3, a in enumerate(ct[2]):
+                if strip_all(a) == ('mem', 3):
+                    ty = tys[k3] if k3 < len(tys) else '&mut'
+                    if not (ty.startswith('&') and not ty.startswith('&mut')):
+                        others.append(ct)
         ok = ok and okr and not others
     ctx.check(ok, R, 'draw_target::DrawTarget::from_vec', b.loc(), 'stores the argument vector resized to width*height', 'from_vec does not store exactly its vector resized to width*height zero-filled')
     b = ctx.body(DT + 'new', R)
